@@ -707,6 +707,8 @@ def gen_fn(repo, fs, unit, em, mode, canary=False):
         em.raw("#[verifier::external_body]\n")
     if fs.opts.get("rlimit"):
         em.raw("#[verifier::rlimit(%s)]\n" % fs.opts["rlimit"])
+    if n_loops_total(body) > 0 and not fs.opts.get("iso") and mode != "stub":
+        em.raw("#[verifier::loop_isolation(false)]\n")
     if fs.opts.get("spinoff"):
         em.raw("#[verifier::spinoff_prover]\n")
     em.mark("fn:%s:start" % fs.qname)
@@ -758,6 +760,9 @@ def gen_fn(repo, fs, unit, em, mode, canary=False):
     info["call_sites"] = [m.group(1) for m in re.finditer(r"\b([A-Za-z_][A-Za-z0-9_]*)\s*(?:::<[^>]*>)?\s*\(", btxt)]
     unit.fn_table[fs.qname] = info
     return info
+
+def n_loops_total(body):
+    return len(find_loops(body, 0, len(body)))
 
 def gen_type(repo, file, name, opts, unit, em):
     src, ftoks, items = repo.load(file)
